@@ -13,3 +13,5 @@ require (
 )
 
 replace wire => ./wire
+
+require gopkg.in/yaml.v3 v3.0.1
